@@ -5,6 +5,7 @@ package c01
 import (
 	"context"
 	"fmt"
+	"github.com/stretchr/testify/assert"
 	"os"
 	"path/filepath"
 	"runtime"
@@ -284,7 +285,13 @@ func wholeRun(o *kit.Out, r *kit.Rand, idx int, m *metrics.Metrics) {
 			}
 			if failEvery > 0 && n%failEvery == 0 {
 				failed.Add(1)
-				switch (n / failEvery) % 4 { // a failed iteration is a failed iteration however it fails
+				switch (n / failEvery) % 6 { // a failed iteration is a failed iteration however it fails
+				case 4:
+					t.Errorf("iteration %d failed", n)
+					linger()
+				case 5:
+					assert.Equal(t, 1, 2, "a failed assertion")
+					linger()
 				case 0:
 					t.Fail()
 					linger()
@@ -326,7 +333,7 @@ func wholeRun(o *kit.Out, r *kit.Rand, idx int, m *metrics.Metrics) {
 		Mode: mode, Flags: flags, Scenario: scenario, FileArg: fileArg,
 		Opts: options.RunOptions{MaxDuration: time.Duration(r.Range(150, 350)) * time.Millisecond, Concurrency: conc,
 			MaxIterations: uint64(kit.Pick(r, 0, 0, 500, 5000)), IgnoreDropped: true, MaxFailuresRate: 100},
-		Ctx: context.Background(), Metrics: m,
+		Ctx: context.Background(), Metrics: m, LogKind: idx % 3, // whatever the scenario logger lets through
 		OnRun: func(rn *run.Run) {
 			swg.Add(1)
 			go func() {
